@@ -131,6 +131,9 @@ def _table_integrity(_):
                 n += 1
             try:
                 r = mrule.Rule(rn)
+                for acc_name in ("name", "attributes", "children", "content_rules", "content_enum"):
+                    getattr(r, acc_name)
+                r.has_enum_content()
                 for a in list(attrs) + ["zz"]:
                     try:
                         r.is_required_attribute(a)
@@ -145,6 +148,15 @@ def _table_integrity(_):
                         pass
             except Exception:  # noqa
                 pass
+    # after all that use every valid witness must still validate (a table that was changed and changed back would not show)
+    for e in ("allow", "boundingAltitudes", "binaryRasterFormat", "access", "keyword", "descriptor", "dataset", "eml"):
+        sp = witness.minimal(e)
+        if sp is not None:
+            try:
+                validate.tree(witness.build(sp))
+            except Exception as ex:  # noqa
+                return [problem("rule_table_mutated_by_use", {"what": "rules_dict after validating invalid nodes", "rules": [e]},
+                                expected="valid witness still validates after the table was used", observed=repr(ex))]
     after = json.dumps(mrule.rules_dict, sort_keys=True)
     probs = []
     if after != before or mrule.rules_dict != tab:
